@@ -9,6 +9,7 @@ import (
 	"go/token"
 	"go/types"
 	"math/big"
+	"strings"
 
 	"golang.org/x/tools/go/ssa"
 )
@@ -291,6 +292,13 @@ func ruleL5(p *Prog, r *Report) {
 	}
 	r.Decide(guardLo && guardHi, R, "domain-enforced", p.Pos(f.Pos()), fmt.Sprintf("slab sizes outside [%d, %d] are refused", tmin, tmax), "setThreshold no longer refuses slab sizes outside [minSlabSize, maxSlabSize]")
 
+	c, globals := p.l5Globals(f, tmin, tmax)
+	need := []string{"targetThreshold", "minThreshold", "maxThreshold", "maxInlineArrayElementSize", "maxInlineMapElementSize", "maxInlineMapKeySize"}
+	l5Rest(p, r, f, c, globals, need, tmin, tmax)
+}
+
+// l5Globals evaluates setThreshold abstractly: the affine interval of every package variable it assigns.
+func (p *Prog) l5Globals(f *ssa.Function, tmin, tmax int64) (*l5ctx, map[string]aval) {
 	c := &l5ctx{tmin: tmin, tmax: tmax, param: f.Params[0], env: map[ssa.Value]aval{}, p: p}
 	globals := map[string]aval{}
 	eachInstr(f, func(in ssa.Instruction) {
@@ -317,7 +325,11 @@ func ruleL5(p *Prog, r *Report) {
 		}
 		globals[g.Name()] = c.eval(st.Val)
 	})
-	need := []string{"targetThreshold", "minThreshold", "maxThreshold", "maxInlineArrayElementSize", "maxInlineMapElementSize", "maxInlineMapKeySize"}
+	return c, globals
+}
+
+func l5Rest(p *Prog, r *Report, f *ssa.Function, c *l5ctx, globals map[string]aval, need []string, tmin, tmax int64) {
+	const R = "L5"
 	for _, n := range need {
 		a, ok := globals[n]
 		if !ok || !a.ok {
@@ -405,4 +417,49 @@ func ruleL5(p *Prog, r *Report) {
 		}
 		r.Decide(okShape, R, "value-limit-shape", p.Pos(mv.Pos()), "maxInlineMapValueSize(k) = maxInlineMapElementSize - k - singleElementPrefixSize", "maxInlineMapValueSize is no longer element limit minus key size minus element prefix")
 	}
+}
+
+// L18 encodability of inlined containers: an inlined array or map is written with a one-byte index into the slab's
+// inlined-extra-data section (maxInlinedExtraDataIndex). Map extra data is never shared and array extra data only
+// between equal types, so a slab must not be able to hold more inlined containers than that index can address:
+// (maxThreshold(t) - root prefix) / (smallest inlined container) <= maxInlinedExtraDataIndex + 1 for every slab size t.
+func ruleL18(p *Prog, r *Report) {
+	const R = "L18"
+	f := p.PkgFunc("setThreshold")
+	tmin, ok1 := p.constVal("minSlabSize")
+	tmax, ok2 := p.constVal("maxSlabSize")
+	maxIdx, ok3 := p.constVal("maxInlinedExtraDataIndex")
+	inl, ok4 := p.constVal("inlinedArrayDataSlabPrefixSize")
+	root, ok5 := p.constVal("arrayRootDataSlabPrefixSize")
+	if f == nil || len(f.Params) != 1 || !ok1 || !ok2 || !ok3 || !ok4 || !ok5 {
+		r.Unk(R, "anchor:inlined-extra-data-capacity", "-", "setThreshold / size constants not found")
+		return
+	}
+	// the limit is enforced by the encoders only (an error at commit time), nothing in the mutation path bounds the count
+	enforcedAtEncode := 0
+	for _, g := range p.TopFuncs() {
+		eachInstr(g, func(in ssa.Instruction) {
+			bo, ok := in.(*ssa.BinOp)
+			if !ok || bo.Op != token.GTR {
+				return
+			}
+			if k, ok := constInt(bo.Y); ok && k == maxIdx && strings.Contains(strings.ToLower(g.Name()), "encode") {
+				enforcedAtEncode++
+			}
+		})
+	}
+	c, globals := p.l5Globals(f, tmin, tmax)
+	mt, ok := globals["maxThreshold"]
+	if !ok || !mt.ok {
+		r.Unk(R, "bound:inlined-extra-data-capacity", p.Pos(f.Pos()), "maxThreshold is outside the affine vocabulary")
+		return
+	}
+	capBytes := linC((maxIdx + 1) * inl)
+	fits := c.leqAll(mt.hi.sub(linC(root)), capBytes)
+	// smallest slab size at which the bound fails (for the report)
+	worst := new(big.Rat).Sub(mt.hi.at(tmax), big.NewRat(root, 1))
+	perSlab := new(big.Rat).Quo(worst, big.NewRat(inl, 1))
+	r.Decide(fits, R, "bound:inlined-extra-data-capacity", p.Pos(f.Pos()),
+		fmt.Sprintf("a slab can hold at most %d inlined containers for every slab size in [%d, %d]", maxIdx+1, tmin, tmax),
+		fmt.Sprintf("a slab of the largest size can hold about %s empty inlined containers, but their extra data is addressed by a one-byte index (limit %d, checked only by %d encoder sites): once a slab holds more than %d inlined maps (or arrays of distinct types) every commit fails with an encoding error, for every slab size above about %d bytes", perSlab.FloatString(0), maxIdx, enforcedAtEncode, maxIdx+1, ((maxIdx+1)*inl+root)*2/3))
 }
